@@ -207,7 +207,8 @@ def _log_softmax_batch_rule(
     if x_bdim is None:
         return LogSoftmaxPlugin._PRIM.bind(x, axis=axis), None
 
-    rank = x.ndim
+    # ``axis`` addresses the per-example operand, i.e. the array without its batch dimension
+    rank = x.ndim - 1
     canon_axis = axis if axis >= 0 else axis + rank
     if canon_axis < 0 or canon_axis >= rank:
         raise ValueError("Invalid axis for log_softmax batching rule")
@@ -215,12 +216,7 @@ def _log_softmax_batch_rule(
     if x_bdim != 0:
         x = jnp.moveaxis(x, x_bdim, 0)
 
-    if canon_axis == x_bdim:
-        axis_body = 0
-    elif canon_axis < x_bdim:
-        axis_body = canon_axis
-    else:
-        axis_body = canon_axis - 1
+    axis_body = canon_axis
 
     out = jax.vmap(
         lambda t: _JAX_LOG_SOFTMAX_ORIG(t, axis=axis_body, where=None),
